@@ -1,7 +1,7 @@
 (* C15 — euler_number: the shifted-plane arithmetic computes, for every label, the bit-quad
    counts n(Q1), n(Q3), n(QD) of that label's pixel set (quad_counts_spec, every image). *)
 From Coq Require Import ZArith List Bool Lia ZifyBool.
-From Centro Require Import Base.GraphC15 Model.LabelGraph Proofs.NeighborsC15.
+From Centro Require Import Base.GraphC15 Model.LabelGraph Spec.LabelGraph Spec.EulerMovesC15 Proofs.NeighborsC15.
 Import ListNotations.
 Open Scope Z_scope.
 
@@ -120,11 +120,10 @@ Hypothesis R : rect img.
 Hypothesis l_nz : l <> 0.
 
 (* is pixel (y, x) in the pixel set of label l *)
-Definition inS (y x : Z) : bool := get2 img y x =? l.
 (* sum over all 2x2 windows meeting the image; the window with bottom-right corner (y, x) *)
 Definition quad_sum (f : bool -> bool -> bool -> bool -> Z) : Z :=
   fold_right Z.add 0
-    (map (fun p => f (inS (fst p - 1) (snd p - 1)) (inS (fst p - 1) (snd p)) (inS (fst p) (snd p - 1)) (inS (fst p) (snd p)))
+    (map (fun p => f (inS img l (fst p - 1) (snd p - 1)) (inS img l (fst p - 1) (snd p)) (inS img l (fst p) (snd p - 1)) (inS img l (fst p) (snd p)))
          (positions (S (img_h img)) (S (img_w img)))).
 Definition nbits (a b c d : bool) : Z := b2z a + b2z b + b2z c + b2z d.
 Definition isQ1 (a b c d : bool) : Z := b2z (nbits a b c d =? 1).
@@ -151,7 +150,7 @@ Lemma plane_sum_sum2 cond : plane_sum img cond l =
 Proof. unfold plane_sum. rewrite fold_positions. reflexivity. Qed.
 
 Lemma quad_sum_sum2 f : quad_sum f =
-  sum2 (img_h img + 1) (img_w img + 1) (fun y x => f (inS (y - 1) (x - 1)) (inS (y - 1) x) (inS y (x - 1)) (inS y x)).
+  sum2 (img_h img + 1) (img_w img + 1) (fun y x => f (inS img l (y - 1) (x - 1)) (inS img l (y - 1) x) (inS img l y (x - 1)) (inS img l y x)).
 Proof. unfold quad_sum. rewrite fold_positions. cbn [fst snd]. replace (S (img_h img)) with (img_h img + 1)%nat by lia.
   replace (S (img_w img)) with (img_w img + 1)%nat by lia. reflexivity. Qed.
 
